@@ -32,5 +32,5 @@ def run(ctx):
         bound_rules.allocation_sizes(ctx, prog, "R3", "reader")
         bound_rules.equal_length_classes(ctx, prog, "R4")
         inv = norm_rules.range_invariant(ctx, prog, "R5")
-        norm_rules.normalize_absint(ctx, prog, "R5", bool(inv))
+        norm_rules.normalize_absint(ctx, prog, "R5", bool(inv), result_class=False)
     ctx.cfg = None
